@@ -123,6 +123,8 @@ class FD(dict):
     def __init__(self):
         super().__init__()
         self.curv = {}
+        self.noise = {}  # {of: scatter of the output under 1e-13 relative perturbations of all inputs} (round-off level of the function itself)
+        self.h = {}  # {wrt: finest step used per column}
 
 
 def fd_jacobian(q, rel=1e-3, skip=None, max_cols=None, rng=None):
@@ -152,6 +154,39 @@ def fd_jacobian(q, rel=1e-3, skip=None, max_cols=None, rng=None):
         return np.concatenate([O.raw(n).ravel() for n in onames]).copy()
 
     res = FD()
+    # round-off level of the function itself (a cancellation inside compute, e.g. exp(a) - 1 for tiny a, makes it far larger than
+    # machine epsilon times the output): scatter of the outputs under perturbations of all inputs in their 13th digit
+    f00 = f()
+    nrng = np.random.default_rng(12345)
+    saved = {w: I.raw(w).copy() for w in c._inputs}
+    dirs = {w: nrng.uniform(0.5, 1.0, saved[w].shape) for w in c._inputs}
+    # (a) scatter under perturbations in the 13th digit; (b) fourth differences along a line at three relative spacings (Hamming /
+    # More-Wild noise estimate: the smooth part cancels, a staircase or jitter of the computed function remains)
+    eta = np.zeros_like(f00)
+    for _k in range(3):
+        for w in c._inputs:
+            I.raw(w)[...] = saved[w] * (1.0 + 1e-13 * nrng.uniform(-1, 1, saved[w].shape))
+        with np.errstate(all="ignore"):
+            fk = f()
+        eta = np.maximum(eta, np.where(np.isfinite(fk - f00), np.abs(fk - f00), 0.0))
+    for delta in (1e-11, 1e-8, 1e-6):  # a staircase (rounding of an intermediate like exp(a) for tiny a) shows at a spacing that crosses its steps
+        line = []
+        for j in range(7):
+            for w in c._inputs:
+                I.raw(w)[...] = saved[w] * (1.0 + delta * j * dirs[w])
+            with np.errstate(all="ignore"):
+                line.append(f())
+        d4 = np.diff(np.array(line), n=4, axis=0)
+        with np.errstate(all="ignore"):
+            eta4 = np.sqrt(np.mean(d4**2, axis=0) / 70.0)
+        eta = np.maximum(eta, np.where(np.isfinite(eta4), eta4, 0.0))
+    for w in c._inputs:
+        I.raw(w)[...] = saved[w]
+    f()
+    r0 = 0
+    for n, sz in zip(onames, osizes):
+        res.noise[n] = eta[r0:r0 + sz].copy()
+        r0 += sz
     for w in c._inputs:
         x = I.raw(w)
         h = _steps(x, rel)
@@ -234,6 +269,7 @@ def fd_jacobian(q, rel=1e-3, skip=None, max_cols=None, rng=None):
         # smooth: the one-sided mismatch is h*f'' and falls by 4 between h and h/4; at a kink it stays
         kink = (s2 > 0.5 * s0) & (s2 > 1e-4 * np.maximum(np.nanmax(np.abs(est), initial=0.0), 1e-300))
         err = np.where(kink, np.inf, err)
+        res.h[w] = hlast.copy()
         with np.errstate(invalid="ignore", divide="ignore"):
             curv = s2 / hlast[None, :]  # one-sided mismatch = |f''| * step
         r0 = 0
@@ -272,6 +308,11 @@ def compare(o, fam, rep, fd, cls_name, tags=(), rtol=1e-6, nonsmooth_frac=0.02, 
         good = valid & ~unreliable
         floor = 1e-12 * row.get(of, 0.0) / ((xscale or {}).get(wrt, 1.0) or 1.0)
         tol = rt * S + 20 * err + floor
+        if of in getattr(fd, "noise", {}) and wrt in getattr(fd, "h", {}):
+            # finite differences cannot resolve the function below its own round-off level divided by the step
+            with np.errstate(invalid="ignore", divide="ignore"):
+                nf = 10.0 * np.asarray(fd.noise[of]).ravel()[:, None] / np.asarray(fd.h[wrt]).ravel()[None, :]
+            tol = tol + np.where(np.isfinite(nf), nf, 0.0).reshape(est.shape)
         if fd_step is not None and (of, wrt) in getattr(fd, "curv", {}):
             # the component itself declares one-sided finite-difference partials with step fd_step: their truncation error is
             # |f''| fd_step / 2 (allowed twice over), with |f''| measured here
